@@ -27,6 +27,7 @@ def generate(rng, tier):
     # manual driving ending in doist.exit(); (a do() over doers whose manual run was never exited abandons the old
     # generators to the garbage collector: the scheduler did not stop them, so their order is not this property's)
     out += sc.gen_manual(rng, 60 * n, thens=("exit",))
+    out += sc.gen_hook_effects(rng, 40 * n)
     sc.add_falsy(rng, out)
     return out
 
